@@ -1045,7 +1045,7 @@ func TestVerifC01(t *testing.T) {
 			return &plQuery{Name: name, QType: dns.TypeA, Addr: cli, Answer: c01Answer(rnd.Fork(10), name, dns.TypeA)}
 		}, emit)
 	}
-	nProt := out.Scale(24, 700)
+	nProt := out.Scale(20, 700)
 	for i := 0; i < nProt; i++ {
 		ps := plNewServer(t, plProtCfg(rnd, vfNames))
 		plRunProt(t, out, rnd, ps, 12, func() *plQuery {
@@ -1151,7 +1151,7 @@ func TestVerifC01(t *testing.T) {
 			out.Emit(ps.refreshCase())
 		}
 	}
-	nRf := out.Scale(24, 700)
+	nRf := out.Scale(16, 700)
 	for i := 0; i < nRf; i++ {
 		c := plGenCfg(rnd, vfNames)
 		if rnd.Chance(4, 5) {
